@@ -20,7 +20,15 @@ MANIFEST = dict(
               'and support selection are translated from the Python source on every run; extracted-model vs. real nnvg '
               'correspondence on random histories including killed runs',
     text='Theorems in coq/theories/Properties/C12.v over tree = path -> option (content id, mode, owner, file|directory) with env = '
-         'superuser flag, umask, ancestors, child. Under the NAMED premise render_independent (text depends on (class, path) only: '
+         'superuser flag, umask, ancestors, child, symbolic links (followed by exists/is_dir/stat/chmod/open). Statements carry '
+         'links_safe (target not a link, or the translated gate refuses links: gate_links_dichotomy decides by computation which '
+         'regime /repo is in; before the proposed C12_symlink_fix.patch the full statements are refuted by witness for a dangling link '
+         'under --no-overwrite and a live link to a foreign file: dangling_link_no_overwrite_refuted, live_link_overwrite_refuted; '
+         'after it symlink_at_target_fails). --pp-run-program is modelled (PPExternal f, translated call, run in the harness) in the '
+         'footprint/no-overwrite/directory/link statements; success and equals-fresh are proved without it (no_external). '
+         'no_overwrite_ok_iff/error_iff hold with NoDup targets discharged from C11 (targets_distinct_from_c11). '
+         'render_independent_from_c10 instantiates the content premise from C10_file_indep_real up to one missing lemma (totality '
+         'of generation in C10\'s model). Under the NAMED premise render_independent (text depends on (class, path) only: '
          'C10/C07) and env_wf: after ANY history of runs and crashes from ANY start tree a successful non-dry run with a SetFileMode '
          'leaves every target equal to the run into the empty directory (regen_equals_fresh, regen_canonical, '
          'regen_content_canonical; no exclusion: since fix 7df01dd a directory at the path of any file to generate makes the run '
@@ -35,15 +43,15 @@ MANIFEST = dict(
          'no_overwrite_after_crash. same_gate, dry_run_inert, cli_setfilemode_last. Tie: translator + make on every run; '
          'extracted model vs. real `python -m nunavut` on random histories (sha256 + st_mode of files AND directories after every '
          'step), killed runs injected at three points of a file write; property oracle against fresh runs.',
-    note='Trusted: Coq kernel; the C12 translator (tools/translators/gen_c12.py, name allow-list of file-system calls over the scanned '
-         'functions); the POSIX semantics written in Gen/RegenBase.v (validated, not verified; owner/other classes only, search '
+    note='Trusted: Coq kernel; the C12 translator (tools/translators/gen_c12.py; every call in the scanned functions must be classified '
+         'file-system relevant or known harmless, anything else fails closed); the POSIX semantics written in Gen/RegenBase.v (validated, not verified; owner/other classes only, search '
          'permission not modelled); extraction + OCaml driver. Premises not proved here: render_independent (C10/C07), compatible '
          '(frozen directory skeleton; paths are opaque), c11_targets_distinct (C11). The sandbox runs as root: plain histories are '
          'tied with superuser=true; superuser=false is proved and tied through a harness-side shim replacing the kernel permission '
          'check inside the real generator process. SupportGenerator._copy_header is reachable only with a non-template support '
          'resource, which no language of this tree ships: the harness offers one through Language.get_support_files. The corner of '
          'the former finding F-COPY-INTO-DIR (fixed) is exercised in every run and must be refused. Not covered: '
-         '--pp-run-program (not representable in filepp), concurrent runs, third parties changing the tree between runs.',
+         'a crash point inside the file post-processor list, chains of links, links in the directory chain, concurrent runs, third parties changing the tree between runs.',
     design='§5 C12')
 
 DSDL = {
@@ -56,6 +64,7 @@ FILE_MODES = [None, None, 0o644, 0o600, 0o400, 0o664, 0o640, 0o444, 0o755, 0o200
 PRE_MODES = [0o444, 0o444, 0o400, 0o644, 0o600, 0o0, 0o555, 0o664, 0o440]
 FOREIGN_NAMES = ['README.txt', 'ns/notes.md', 'nunavut/support/local.h', 'zz/keep.dat', 'ns/A_1_0.h.bak', 'ns/sub/.hidden']
 GEN_BASE = 1000000
+EDIT_BASE = 400000000
 
 
 # ---------------------------------------------------------------------------------------------
@@ -64,7 +73,8 @@ GEN_BASE = 1000000
 def gen_class(rng, shim: bool) -> dict:
     lang = rng.choice(['c', 'c', 'cpp', 'cpp', 'py', 'html'])
     cl = {'lang': lang, 'omit': rng.random() < 0.3, 'gensup': rng.choice([None, None, 'always', 'never', 'only', 'as-needed']),
-          'trim': rng.random() < 0.3, 'maxl': rng.choice([None, None, None, 0, 1, 2]), 'ext': None, 'extra': False}
+          'trim': rng.random() < 0.3, 'maxl': rng.choice([None, None, None, 0, 1, 2]), 'ext': None, 'extra': False,
+          'runprog': rng.random() < 0.15}
     if cl['gensup'] == 'always':
         cl['omit'] = False      # rejected by the argument parser ("Logic error")
     if lang == 'cpp' and rng.random() < 0.3:
@@ -94,6 +104,8 @@ def class_argv(cl: dict, nsdir: str, outdir: str) -> typing.List[str]:
         a += ['--pp-max-emptylines', str(cl['maxl'])]
     if cl['ext']:
         a += ['--output-extension', cl['ext']]
+    if cl.get('runprog'):
+        a += ['--pp-run-program', os.path.join(nsdir, '..', 'editor.py')]     # ExternalProgramEditInPlace
     a.append(os.path.join(nsdir, 'ns'))
     return a
 
@@ -242,7 +254,8 @@ def active_targets(d: dict) -> typing.List[str]:
 
 def gen_history(rng, mode: str, pool: typing.List[dict], fresh: Fresh, max_len: int, dir_at_copy_ok: bool = False,
                 links_ok: bool = False) -> dict:
-    ok_pool = [c for c in pool if (mode != 'plain' or not c['extra'])]
+    # the external program runs in a subprocess, outside the permission shim: not in the emulated-unprivileged mode
+    ok_pool = [c for c in pool if (mode != 'plain' or not c['extra']) and (mode != 'nonroot' or not c.get('runprog'))]
     with_extra = [c for c in ok_pool if c['extra']]
     classes = [rng.choice(with_extra if (with_extra and rng.random() < 0.6) else ok_pool) for _ in range(rng.choice([1, 2, 2, 3]))]
     all_targets = sorted({t for c in classes for t in active_targets(fresh.get(c)['describe'])}
@@ -294,7 +307,10 @@ def gen_history(rng, mode: str, pool: typing.List[dict], fresh: Fresh, max_len: 
                 kinds = dict((p, k) for p, k in d['support'])
                 plain_copy = kinds.get(tg[idx], True) is False and not d['line_pps'][0]
                 st['crash'] = {'idx': idx, 'path': tg[idx],
-                               'phase': rng.choice(['before_open', 'after_open'] + ([] if plain_copy else ['before_final_chmod']))}
+                               # (the model has no crash point INSIDE the file post-processor list: with an external
+                               #  program before SetFileMode the "before the final chmod" point is not a prefix of actions)
+                               'phase': rng.choice(['before_open', 'after_open'] +
+                                                   ([] if plain_copy or classes[st['cls']].get('runprog') else ['before_final_chmod']))}
                 st['no_overwrite'] = False
                 st['dry_run'] = False
     return {'mode': mode, 'classes': classes, 'pre': pre, 'rodirs': rodirs, 'steps': steps}
@@ -459,7 +475,9 @@ def model_line(h: dict, fresh: Fresh, start: dict, umask: int):
         resmode = d['res_modes'][-1] if d['res_modes'] else 0o644
         cfg = '/'.join([
             str(keys.index(class_key(cl)) + 1), '0' if st['no_overwrite'] else '1', '1' if st['dry_run'] else '0',
-            '1' if d['line_pps'][0] else '0', str(fm), (d['gensup'] or 'as-needed').replace('-', ''), '1' if d['omit'] else '0',
+            '1' if d['line_pps'][0] else '0',
+            '+'.join('x' if t == 'ExternalProgramEditInPlace' else str(fm) for t in d['file_pps'][0]) or '-',
+            (d['gensup'] or 'as-needed').replace('-', ''), '1' if d['omit'] else '0',
             '+'.join('%d:%d' % (pid(p), 1 if k else 0) for p, k in d['sersup']) or '-',
             '+'.join('%d:%d' % (pid(p), 1 if k else 0) for p, k in d['typesup']) or '-',
             '+'.join(str(pid(p)) for p in d['types']) or '-', str(resmode)])
@@ -519,11 +537,14 @@ def compare_model(h, fresh, impl, msteps, uni, foreign, keys) -> typing.Optional
             if cid < GEN_BASE:
                 okc = foreign[cid - 1] == e[1]
             else:
+                edited = cid >= EDIT_BASE
+                cid -= EDIT_BASE if edited else 0
                 cl = cls_of_key[keys[(cid - GEN_BASE) // 10000 - 1]]
                 src = uni[(cid - GEN_BASE) % 10000 - 1]
                 # shutil.copy into a directory: the text of target src is at src/<resource name>
                 # ... and open() through a symbolic link: the text of target src is at the link's destination
-                okc = (src == rel or rel == src + '/' + EXTRA_NAME or linkdest.get(src) == rel) and fresh.matches(cl, src, e)
+                okc = ((src == rel or rel == src + '/' + EXTRA_NAME or linkdest.get(src) == rel) and fresh.matches(cl, src, e)
+                       and edited == bool(cl.get('runprog')))      # the reference run of the class includes the external program
             if not okc:
                 return {'step': i, 'what': 'content', 'path': rel, 'model': m, 'impl': e[:3]}
         extra = [rel for rel, e in real['snap'].items() if rel != '.' and rel not in uni]
@@ -629,6 +650,8 @@ def main(chk: core.Check, replay: typing.Optional[str] = None) -> int:
         os.makedirs(os.path.dirname(os.path.join(nsdir, rel)), exist_ok=True)
         with open(os.path.join(nsdir, rel), 'w') as f:
             f.write(text)
+    with open(os.path.join(base, 'editor.py'), 'w') as f:      # a trivial in-place editor for --pp-run-program
+        f.write("import sys\nwith open(sys.argv[-1], 'a') as f:\n    f.write('\\n// edited in place by the external program\\n')\n")
     extra = os.path.join(base, 'extra_helper.h')
     with open(extra, 'w') as f:
         f.write(EXTRA_RESOURCE)
@@ -700,6 +723,7 @@ def main(chk: core.Check, replay: typing.Optional[str] = None) -> int:
         n_pool = 10 if quick else 40
         pool = [gen_class(rng, shim=(i % 2 == 1)) for i in range(n_pool)]
         # always present: the two _copy_header paths (shutil.copy when there is no line post-processor: cpp; line-wise copy: c)
+        pool[0] = dict(gen_class(rng, shim=False), runprog=True)      # --pp-run-program is always exercised
         pool[1] = {'lang': 'cpp', 'omit': False, 'gensup': None, 'trim': False, 'maxl': None, 'ext': None, 'extra': True}
         pool[3] = {'lang': 'c', 'omit': False, 'gensup': rng.choice([None, 'always']), 'trim': False, 'maxl': None, 'ext': None, 'extra': True}
         pool[5] = {'lang': 'cpp', 'omit': rng.random() < 0.5, 'gensup': 'only', 'trim': False, 'maxl': None, 'ext': '.h', 'extra': True}
@@ -713,6 +737,14 @@ def main(chk: core.Check, replay: typing.Optional[str] = None) -> int:
             mode = ['plain', 'plain', 'plain', 'shim', 'nonroot', 'nonroot'][i % 6]
             ml = max_len if (quick or i % 4 == 0) else 8
             hs.append(gen_history(rng, mode, pool, fresh, ml, dir_at_copy_ok=True, links_ok=links_ok))
+        if links_ok:  # symbolic links at targets (F-SYMLINK-TARGET): dangling + --no-overwrite, live + overwrite; always exercised
+            plain_c = {'lang': 'c', 'omit': False, 'gensup': 'never', 'trim': False, 'maxl': None, 'ext': None, 'extra': False, 'runprog': False}
+            fresh.prepare([plain_c])
+            for mode, live, noov in (('plain', False, True), ('plain', True, False), ('shim', True, True)):
+                hs.append({'mode': mode, 'classes': [plain_c], 'rodirs': [],
+                           'pre': [{'path': 'ns/A_1_0.h', 'kind': 'link', 'dest': 'victim0.h', 'live': live, 'mode': 0o444, 'owned': True}],
+                           'steps': [{'cls': 0, 'file_mode': None, 'no_overwrite': noov, 'dry_run': False},
+                                     {'cls': 0, 'file_mode': 0o644, 'no_overwrite': not noov, 'dry_run': False}]})
         if True:      # the corner of the former finding F-COPY-INTO-DIR (fixed by 7df01dd): must now be refused, always exercised
             for mode in ('shim', 'nonroot'):
                 hs.append({'mode': mode, 'classes': [pool[1]], 'rodirs': [],
@@ -733,7 +765,7 @@ def main(chk: core.Check, replay: typing.Optional[str] = None) -> int:
     stats = {'histories': len(hs), 'steps': 0, 'plain_nnvg_steps': 0, 'shim_root_steps': 0, 'nonroot_emulated_steps': 0,
              'no_overwrite_steps': 0, 'no_overwrite_conflicts': 0, 'dry_run_steps': 0, 'failed_runs_other': 0,
              'overwrites_of_readonly_files': 0, 'overwrites_of_existing_files': 0, 'copy_header_writes': 0,
-             'shutil_copy_writes': 0, 'interrupted_runs': 0, 'links_at_targets': 0, 'dir_at_target': 0, 'blocked_parent': 0, 'readonly_dirs': 0, 'not_owned_files': 0,
+             'shutil_copy_writes': 0, 'interrupted_runs': 0, 'links_at_targets': 0, 'run_program_steps': 0, 'dir_at_target': 0, 'blocked_parent': 0, 'readonly_dirs': 0, 'not_owned_files': 0,
              'langs': {}, 'max_history_len': 0, 'content_classes': len(fresh.by_key)}
     distinct = set()
     model_bad, oracle_bad = [], []
@@ -766,6 +798,7 @@ def main(chk: core.Check, replay: typing.Optional[str] = None) -> int:
             stats[{'plain': 'plain_nnvg_steps', 'shim': 'shim_root_steps', 'nonroot': 'nonroot_emulated_steps'}[h['mode']]] += 1
             stats['langs'][cl['lang']] = stats['langs'].get(cl['lang'], 0) + 1
             stats['interrupted_runs'] += impl[i]['rc'] == 'crash'
+            stats['run_program_steps'] += bool(cl.get('runprog'))
             stats['no_overwrite_steps'] += st['no_overwrite']
             stats['dry_run_steps'] += st['dry_run']
             stats['no_overwrite_conflicts'] += impl[i]['rc'] == 'exists'
